@@ -71,12 +71,13 @@ type Contract struct {
 	Locals   map[string]string
 	File     string
 	Line     int
+	Options  map[string]bool
 	Nocheck  bool // contract is assumed at call sites but the body is not verified here (trusted)
 	NoOverread bool
 }
 
 var clauseRe = regexp.MustCompile(`^(\w+)\s*(.*)$`)
-var tagRe = regexp.MustCompile(`^\[([A-Za-z0-9_.\-]+)\]\s*(.*)$`)
+var tagRe = regexp.MustCompile(`^\[([A-Za-z0-9_.+\-]+)\]\s*(.*)$`)
 
 func relPkgDir(pkgPath string) string {
 	if pkgPath == modPath {
@@ -142,6 +143,15 @@ func aliases(s []byte, t []byte, lo, hi int) bool {
 	}
 	return &s[0] == &t[lo]
 }
+
+// bufValid(b): b is a well-formed gopacket serialize buffer (0 <= start <= len(data) <= cap(data), ...).
+func bufValid(b any) bool { return b != nil }
+
+// bufSmall(b): bufValid and, additionally, capacity and growth increments below 2^30 bytes.
+func bufSmall(b any) bool { return b != nil }
+
+// bufBytes(b): the bytes currently in the buffer, b.Bytes().
+func bufBytes(b interface{ Bytes() []byte }) []byte { return b.Bytes() }
 
 // dyntype(x, "T") : the dynamic type of interface x is T
 func dyntype(x any, name string) bool { return true }
@@ -307,6 +317,15 @@ func (w *World) parseContracts(p *packages.Package, file, src string) error {
 			continue
 		case "nooverread":
 			cur.NoOverread = true
+			last = nil
+			continue
+		case "option":
+			if cur.Options == nil {
+				cur.Options = map[string]bool{}
+			}
+			for _, o := range strings.Fields(rest) {
+				cur.Options[o] = true
+			}
 			last = nil
 			continue
 		case "locals":
